@@ -100,6 +100,8 @@ class GraphDriver:
                     n.defense_status = 0.0
                 if act['kind'] in ('exist', 'notExist'):
                     n.existence_status = True
+                if act.get('dist'):
+                    n.ttc = {'type': 'function', 'name': 'Exponential', 'arguments': [0.1]}
                 self.bind(act['h'], n)
                 if act['reqId'] != 99:
                     G.add_node(n, node_id=act['reqId'])
